@@ -114,8 +114,8 @@ def canary(eng):
 
 
 def replay(o, tree):
-    r_ = structure.replay(o, tree)
-    if r_ is not None:
+    r_ = None if o.get("_shared_replay") else structure.replay(dict(o, _shared_replay=True), tree)
+    if r_ is not None and r_.get("reproduced"):
         return r_
     import os
     old = os.environ.get("PDPY11_SRC")
